@@ -10,3 +10,4 @@ import FuraxProofs.Props.C02
 #print axioms Furax.C02.matmul_operands
 #print axioms Furax.C02.matmul_rejects
 #print axioms Furax.C02.add_sub_reject
+#print axioms Furax.C02.framework_inhabited
